@@ -24,7 +24,7 @@ REAL = ["rpyc.core.protocol.Connection (boxing, dispatch, re-entrant serve, hand
 STUB = ["sockets/poll/time/locks (simulator)"]
 ASSUMPTIONS = ["the in-process execution of the same program is the specification", "no BgServingThread configuration here (its timing "
                "defect D7 is C13/C14's subject and would turn into spurious timeouts inside nested calls)"]
-PROBES = ["c01:exception-crossed", "c01:callable-called-remotely", "c01:depth>=4"]
+PROBES = ["c01:exception-crossed", "c01:callable-called-remotely", "c01:depth>=4", "c01:class-called-remotely"]
 
 EXC = {"ValueError": ValueError, "KeyError": KeyError, "ZeroDivisionError": ZeroDivisionError, "IndexError": IndexError,
        "TypeError": TypeError, "RuntimeError": RuntimeError, "AttributeError": AttributeError, "OSError": OSError}
@@ -34,9 +34,13 @@ IMM = [0, 1, -7, 2 ** 70, 1.5, "txt", b"by", None, True, (1, "a"), (), ((2,), No
 class Box(object):
     """by-reference container with a stable label"""
 
+    registry = None         # label -> box of the interpretation that is running (boxes made by calling the class register here)
+
     def __init__(self, label):
         self._label = label
         self._items = []
+        if Box.registry is not None:
+            Box.registry[label] = self
 
     def exposed_add(self, x):
         self._items.append(x)
@@ -94,6 +98,7 @@ class Interp(object):
         self.nbox = 0
         self.trace = []
         self.stats = {"remote": 0, "excx": 0, "refx": 0, "maxdepth": 0, "cbremote": 0}
+        Box.registry = self.boxes
 
     def newbox(self, owner):
         self.nbox += 1
@@ -138,7 +143,15 @@ class Interp(object):
         cbs = []
         for a in list(args) + [kwargs[k] for k in sorted(kwargs)]:
             for leaf in _leaves(a):
-                if isinstance(leaf, Box) or (hasattr(leaf, "____conn__") and isinstance(self.resolve(leaf), Box)):
+                if leaf is Box or (hasattr(leaf, "____conn__") and self.resolve(leaf) is Box):
+                    # the class object itself was handed over (after instances of it): calling it constructs on the owner's side
+                    nmade = sum(1 for lab in self.boxes if lab.startswith("mk%d_" % nid))
+                    made = leaf("mk%d_%d" % (nid, nmade))
+                    made.add(("made-by", nid))
+                    refs.append(made)
+                    if self.sim is not None and hasattr(leaf, "____conn__"):
+                        self.sim.count("c01:class-called-remotely")
+                elif isinstance(leaf, Box) or (hasattr(leaf, "____conn__") and isinstance(self.resolve(leaf), Box)):
                     refs.append(leaf)
                     if node["mutate"]:
                         leaf.add(("m", nid))
@@ -149,8 +162,10 @@ class Interp(object):
             sel = e["argsel"]
             cargs = []
             for j in range(e["nargs"]):
-                r = sel[j] % 6
-                if r == 0:
+                r = sel[j] % 7
+                if r == 6:
+                    cargs.append(Box)
+                elif r == 0:
                     cargs.append(IMM[sel[j + 1] % len(IMM)])
                 elif r == 1:
                     cargs.append(refs[sel[j + 1] % len(refs)])
